@@ -28,10 +28,10 @@ Definition plugin_wf (mx : Z) (p : plugin) : Prop :=
       (a = 0%N -> b = 0%N) /\ (auto = true <-> a = 0%N) /\
       0 < lt /\ lt <= infinity /\ (dep = true -> lt < infinity)
   | PRDNSS auto lt servers =>
-      (* servers are written as address + zone-rank * 2^128 (zone-less: plain 128-bit) *)
+      (* plain (zone-less, not IPv4-mapped) 128-bit addresses, none of them :: *)
       0 <= lt <= infinity /\ NoDup servers /\ ~ In 0%N servers /\
       (auto = true \/ servers <> []) /\
-      Forall (fun s => addr_is_4in6 (s mod two128) = false) servers
+      Forall (fun s => (s < two128)%N /\ addr_is_4in6 s = false) servers
   | PDNSSL lt names => 0 <= lt <= infinity /\ names <> [] /\ NoDup names
   | PMTU m => 0 < m <= 65536
   | PLLA => True
@@ -75,7 +75,7 @@ Definition plugin_wfb (mx : Z) (p : plugin) : bool :=
   | PRDNSS auto lt servers =>
       (0 <=? lt) && (lt <=? infinity) && nodupN_b servers && negb (existsb (N.eqb 0) servers) &&
       (auto || negb (match servers with [] => true | _ => false end)) &&
-      forallb (fun s => negb (addr_is_4in6 (s mod two128))) servers
+      forallb (fun s => N.ltb s two128 && negb (addr_is_4in6 s)) servers
   | PDNSSL lt names =>
       (0 <=? lt) && (lt <=? infinity) && negb (match names with [] => true | _ => false end) && nodupN_b names
   | PMTU m => (0 <? m) && (m <=? 65536)
